@@ -87,10 +87,16 @@ TYPES = {
                                    ("data.json", "data.json", "'data.json'", "str:'data.json'"), ("abc", "abc", "'abc'", "str:'abc'"), ("5", 5, "5", "int:5")]),
     "any": ("Any", [("data.json", "data.json", "'data.json'", "str:'data.json'"), ("count.txt", "count.txt", "'count.txt'", "str:'count.txt'"),
                     ("notes.txt", "notes.txt", "'notes.txt'", "str:'notes.txt'"), ("abc", "abc", "'abc'", "str:'abc'")]),
+    # Optional[...] of parametrised generics and of Literal: without a signature default they are OPTIONS defaulting to None
+    "optlist": ("Optional[List[int]]", [("null", None, "None", None), ("[1, 2]", [1, 2], "[1, 2]", "list:[int:1,int:2]"), ("[]", [], "[]", "list:[]")]),
+    "optlit": ('Optional[Literal["u", "v"]]', [("null", None, "None", None), ("u", "u", "'u'", "str:'u'"), ("v", "v", "'v'", "str:'v'")]),
+    "optdict": ("Optional[Dict[str, int]]", [("null", None, "None", None), ('{"a": 1}', {"a": 1}, "{'a': 1}", "dict:{a=int:1}"), ("{}", {}, "{}", "dict:{}")]),
+    "opttuple": ("Optional[Tuple[int, str]]", [("null", None, "None", None), ('[1, "a"]', [1, "a"], "(1, 'a')", "tuple:[int:1,str:'a']")]),
     "strlist": ("Union[str, List[str]]", [("notes.txt", "notes.txt", "'notes.txt'", "str:'notes.txt'"), ("data.json", "data.json", "'data.json'", "str:'data.json'"),
                                           ("abc", "abc", "'abc'", "str:'abc'")]),
 }
 # files that exist in the working directory while the cases run
+OPTIONAL_TYPES = ("optint", "optlist", "optlit", "optdict", "opttuple")
 FILES = {"notes.txt": "hello world\n", "count.txt": "42\n", "data.json": '{"injected": true}\n'}
 TYPE_KEYS = list(TYPES)
 
@@ -104,7 +110,7 @@ METHODS = ["fit", "run", "go", "stop", "evaluate"]
 # the CLI's own vocabulary (fixed-seed sweep only)
 VOCAB = ["config", "subcommand", "help", "print_config", "p", "pr", "print_", "c", "h", "print_c", "fit", "run"]
 
-PREAMBLE = '''from typing import Any, Optional, List, Literal, Union
+PREAMBLE = '''from typing import Any, Dict, Optional, List, Literal, Tuple, Union
 from enum import Enum
 
 LOG = []
@@ -129,6 +135,8 @@ def canon(v):
         return "%s:%r" % (type(v).__name__, v)
     if isinstance(v, (list, tuple)):
         return "%s:[%s]" % (type(v).__name__, ",".join(str(canon(x)) for x in v))
+    if isinstance(v, dict):
+        return "dict:{%s}" % ",".join("%s=%s" % (k, canon(x)) for k, x in sorted(v.items()))
     return "obj:" + type(v).__name__
 
 
@@ -258,7 +266,7 @@ def eff_default(p):
     """(has, canonical) of what the parameter holds when nothing is given"""
     if p["default"] is not None:
         return True, TYPES[p["type"]][1][p["default"]][3]
-    if p["type"] == "optint":
+    if p["type"] in OPTIONAL_TYPES:
         return True, None
     return False, None
 
@@ -376,11 +384,68 @@ def level_args(sig, given, as_pos, how, rng, tmp, has_config=True):
     return pre + (o + pos if rng.random() < 0.5 else pos + o)
 
 
+def full_section(sig, given, as_pos, positional_on_argv=False):
+    """config values of one parser level; with positional_on_argv the required positionals are left out"""
+    pos, opts, cfg = split_given(sig, given, as_pos)
+    if positional_on_argv:
+        return {n: cfg[n] for n, _ in opts}, pos
+    return cfg, []
+
+
+def sibling_assignment(rng, sig):
+    a = assignments(rng, sig, 1)
+    return a[0] if a else {}
+
+
+def build_multiconfig(case, rng, tmp):
+    """one --config document BEFORE the subcommand token that carries a section for EVERY component / method of that
+    level; argv then selects one of them: it must be called with the values of ITS section"""
+    c = selected(case)
+    as_pos = case["as_pos"]
+    path = list(case["path"])
+
+    def comp_section(cc, is_sel):
+        """(section dict, argv tail after the component's own position)"""
+        if cc["kind"] == "func":
+            given = case["top"] if is_sel else sibling_assignment(rng, cc["sig"])
+            return split_given(cc["sig"], given, as_pos)[2], []
+        given = case["top"] if is_sel else sibling_assignment(rng, cc["init"])
+        if not cc["methods"]:
+            return split_given(cc["init"], given, as_pos)[2], []
+        # a class with methods: the constructor's positionals go on the command line (a positional of the class parser
+        # would swallow the method token), everything else into the section, with one sub-section per method
+        sec, pos = full_section(cc["init"], given, as_pos, positional_on_argv=is_sel)
+        if not is_sel:
+            sec = split_given(cc["init"], given, as_pos)[2]
+            return sec, []
+        for m in cc["methods"]:
+            mg = case["sub"] if m["name"] == case["method"] else sibling_assignment(rng, m["sig"])
+            sec[m["name"]] = split_given(m["sig"], mg, as_pos)[2]
+        return sec, pos + [case["method"]]
+
+    if not path:
+        sec, tail = comp_section(c, True)
+        return ["--config", config_arg(sec, rng, tmp)] + tail
+    doc, tail = {}, []
+    for key, cc in leaves(case["tree"]):
+        is_sel = list(key) == path
+        sec, t = comp_section(cc, is_sel)
+        if is_sel:
+            tail = t
+        node = doc
+        for k in key[:-1]:
+            node = node.setdefault(k, {})
+        node[key[-1]] = sec
+    return ["--config", config_arg(doc, rng, tmp)] + path + tail
+
+
 def build_argv(case, rng, tmp=None):
     c = selected(case)
     as_pos = case["as_pos"]
     ch = case["channel"]
     path = list(case["path"])
+    if ch == "multiconfig":
+        return build_multiconfig(case, rng, tmp)
     top_sig = c["sig"] if c["kind"] == "func" else c["init"]
     msig = None
     if c["kind"] == "cls" and c["methods"]:
@@ -516,7 +581,7 @@ def wire_sig(sig):
         has, d = (False, None)
         if p["kind"] in ("pk", "ko") and p["default"] is not None:
             has, d = True, TYPES[p["type"]][1][p["default"]][3]
-        out.append({"name": p["name"], "kind": p["kind"], "dflt": [d] if has else [], "optional": p.get("type") == "optint"})
+        out.append({"name": p["name"], "kind": p["kind"], "dflt": [d] if has else [], "optional": p.get("type") in OPTIONAL_TYPES})
     return out
 
 
@@ -543,7 +608,7 @@ def model_line(case):
         "comps": [{"key": list(k), "comp": wire_comp(cc)} for k, cc in leaves(case["tree"])],
         "path": [] if single else list(case["path"]),
         "given": {"top": wire_given(top_sig, case["top"]), "method": case.get("method"), "sub": wire_given(msig, case["sub"]),
-                  "cfgTop": "cfg" if case["channel"] != "argv" else None, "cfgSub": None},
+                  "cfgTop": "cfg" if case["channel"] not in ("argv",) and not (case["channel"] == "multiconfig" and case["path"]) else None, "cfgSub": None},
     }
 
 
@@ -571,8 +636,8 @@ def gen_sig(rng, n, names, extras=True):
     for i in range(n):
         t = rng.choice(TYPE_KEYS)
         has_d = rng.random() < 0.55
-        if t in ("enum", "float", "intstr", "any", "strlist") and names[i] in CLASH:
-            t = rng.choice([k for k in TYPE_KEYS if k not in ("enum", "float", "intstr", "any", "strlist")])      # open finding C12-namespace-member-name-unconverted
+        if t in ("enum", "float", "intstr", "any", "strlist", "optlist", "optlit", "optdict", "opttuple") and names[i] in CLASH:
+            t = rng.choice(["int", "str", "bool", "optint", "listint", "literal"])      # open finding C12-namespace-member-name-unconverted
         ps.append({"name": names[i], "kind": "ko" if i >= n - n_ko else "pk", "type": t,
                    "default": rng.randrange(len(TYPES[t][1])) if has_d else None})
     pk = [p for p in ps if p["kind"] == "pk"]
@@ -704,7 +769,8 @@ def cases_for_tree(rng, tree, per_leaf):
             else:
                 m, subs = None, [{}]
             for sub in subs:
-                for ch in ("argv", "config", "mixed"):
+                multi = (bool(path) and len(lv) >= 2) or (c["kind"] == "cls" and len(c["methods"]) >= 2)
+                for ch in ("argv", "config", "mixed") + (("multiconfig",) if multi else ()):
                     case = {"tree": tree, "path": path, "method": m["name"] if m else None, "top": top, "sub": sub,
                             "channel": ch, "as_pos": rng.random() < 0.75}
                     if not negative_safe(case):
@@ -755,7 +821,7 @@ def finding_classes(case):
         if any(p["name"] in CLASH and p["type"] in ("enum", "float") for p in named(sig)):
             out.add(F_ENUM_CLASH)
     for p in named(top_sig):
-        if p["name"].startswith("_") and p["type"] == "optint" and p["default"] is None:
+        if p["name"].startswith("_") and p["type"] in OPTIONAL_TYPES and p["default"] is None:
             out.add(F_PRIVATE_OPT)
     parent_opts = list(BASE_OPTS)
     if c["kind"] == "cls" and c["methods"]:
@@ -763,7 +829,7 @@ def finding_classes(case):
         if any(p["name"] == "config" for p in named(msig)):
             out.add(F_RESERVED)
         for p in named(msig):
-            if p["name"].startswith("_") and p["type"] == "optint" and p["default"] is None:
+            if p["name"].startswith("_") and p["type"] in OPTIONAL_TYPES and p["default"] is None:
                 out.add(F_PRIVATE_OPT)
         if case["method"] == "config" or any(p["name"] == case["method"] for p in named(c["init"]) if visible(p)):
             out.add(F_PARENT_DEST)
